@@ -26,7 +26,7 @@ type c03Scenario struct {
 }
 
 type c03Edit struct {
-	Kind string `json:"k"` // flip, drop, dup, swap, trunc, inject, (dtlcp) ddrop, ddup, ddelay, dtrunc
+	Kind string `json:"k"` // flip, drop, dup, swap, trunc, inject, addext (Off: 0 append / 1 prepend an unknown extension to a hello, lengths fixed up), (dtlcp) ddrop, ddup, ddelay, dtrunc
 	Dir  int    `json:"d"`
 	Rec  int    `json:"r"` // record index within the direction (datagram index for d* kinds)
 	Off  int    `json:"o"`
@@ -165,6 +165,87 @@ func c03Exec(c c03Case) (res c03Result, sig, msg string) {
 	return res, "", ""
 }
 
+
+// c03AddExt inserts an unknown extension into a ClientHello / ServerHello that fills one cleartext
+// record, fixing up the extension-block, handshake (and fragment) and record lengths: a
+// structure-aware edit that leaves every field the receiver parses unchanged. ok is false when the
+// record does not hold a whole hello.
+func c03AddExt(rec []byte, prepend bool) (out []byte, ok bool) {
+	if len(rec) < vfRecHdrLen+vfHSHdrLen+35 || rec[0] != 22 {
+		return rec, false
+	}
+	if vfRecHdrLen == 13 && (rec[3] != 0 || rec[4] != 0) {
+		return rec, false // protected
+	}
+	hs := rec[vfRecHdrLen:]
+	typ := hs[0]
+	if typ != 1 && typ != 2 {
+		return rec, false
+	}
+	blen := int(hs[1])<<16 | int(hs[2])<<8 | int(hs[3])
+	if vfHSHdrLen+blen != len(hs) {
+		return rec, false
+	}
+	body := hs[vfHSHdrLen:]
+	p := 2 + 32
+	if p >= len(body) {
+		return rec, false
+	}
+	p += 1 + int(body[p]) // session id
+	if typ == 1 {
+		if vfRecHdrLen == 13 {
+			if p >= len(body) {
+				return rec, false
+			}
+			p += 1 + int(body[p]) // cookie
+		}
+		if p+2 > len(body) {
+			return rec, false
+		}
+		p += 2 + (int(body[p])<<8 | int(body[p+1])) // suites
+		if p >= len(body) {
+			return rec, false
+		}
+		p += 1 + int(body[p]) // compression methods
+	} else {
+		p += 2 + 1
+	}
+	if p > len(body) {
+		return rec, false
+	}
+	var exts []byte
+	if p < len(body) {
+		if p+2 > len(body) {
+			return rec, false
+		}
+		n := int(body[p])<<8 | int(body[p+1])
+		if p+2+n != len(body) {
+			return rec, false
+		}
+		exts = body[p+2:]
+	}
+	ext := []byte{0xfe, 0x42, 0, 3, 'v', 'f', '!'}
+	var ne []byte
+	if prepend {
+		ne = append(append(ne, ext...), exts...)
+	} else {
+		ne = append(append(ne, exts...), ext...)
+	}
+	nb := append([]byte(nil), body[:p]...)
+	nb = append(nb, byte(len(ne)>>8), byte(len(ne)))
+	nb = append(nb, ne...)
+	nh := append([]byte(nil), hs[:vfHSHdrLen]...)
+	nh[1], nh[2], nh[3] = byte(len(nb)>>16), byte(len(nb)>>8), byte(len(nb))
+	if vfHSHdrLen == 12 {
+		nh[9], nh[10], nh[11] = nh[1], nh[2], nh[3]
+	}
+	out = append([]byte(nil), rec[:vfRecHdrLen]...)
+	pl := len(nh) + len(nb)
+	out[vfRecHdrLen-2], out[vfRecHdrLen-1] = byte(pl>>8), byte(pl)
+	out = append(append(out, nh...), nb...)
+	return out, true
+}
+
 func c03Scenarios() []c03Scenario {
 	var out []c03Scenario
 	for _, resumed := range []bool{false, true} {
@@ -198,7 +279,7 @@ func c03InjectBody(kind string) (typ byte, body []byte) {
 }
 
 func TestVF_C03(t *testing.T) {
-	rec := vfRec("C03", "C03-tamper", "one man-in-the-middle edit per handshake, addressed on-line as (direction, record, offset): flip of every byte of every record x masks 01,80,FF, drop / duplicate / adjacent swap of records, truncation at record boundaries and inside records, injection of 6 record kinds before each record (datagram stack: also datagram drop / duplicate / delay / truncation); scenarios {full,resumed} x 4 suites x client auth; oracle: both endpoints complete only with identical views equal to the untampered negotiation and Finished values that an independent PRF reproduces from the messages as sent; non-trivial = edit applied; distinct = (scenario, edit)")
+	rec := vfRec("C03", "C03-tamper", "one man-in-the-middle edit per handshake, addressed on-line as (direction, record, offset): flip of every byte of every record x masks 01,80,FF, drop / duplicate / adjacent swap of records, truncation at record boundaries and inside records, injection of 6 record kinds before each record, an unknown extension appended / prepended to each hello with all lengths fixed up (datagram stack: also datagram drop / duplicate / delay / truncation); scenarios {full,resumed} x 4 suites x client auth; oracle: both endpoints complete only with identical views equal to the untampered negotiation and Finished values that an independent PRF reproduces from the messages as sent; non-trivial = edit applied; distinct = (scenario, edit)")
 	scs := c03Scenarios()
 	masks := []byte{0x01, 0x80, 0xFF}
 	idx := 0
@@ -214,10 +295,9 @@ func TestVF_C03(t *testing.T) {
 		return func(sig, msg string) { rec.Violation(sig, c, "%s", msg) }
 	}
 	for si, sc := range scs {
-		if !vfThorough() && (si+vfSeed())%3 != 0 {
-			// quick tier: a third of the scenarios get the enumerated sweep (rotating with the seed)
-			continue
-		}
+		// quick tier: a third of the scenarios get the enumerated sweep (rotating with the seed); the
+		// others only the structure-aware edits and the flips of every record's header and first payload byte
+		light := !vfThorough() && (si+vfSeed())%3 != 0
 		// baseline: learn the record layout of this scenario
 		w, perr := c03Prepare(sc)
 		if perr != "" {
@@ -237,6 +317,12 @@ func TestVF_C03(t *testing.T) {
 					structural = append(structural, c03Edit{Kind: "inject", Dir: dir, Rec: ri, Inj: inj})
 				}
 				structural = append(structural, c03StackEdits(base, dir, ri)...)
+				if light {
+					structural = nil
+				}
+				if ri < 3 {
+					structural = append(structural, c03Edit{Kind: "addext", Dir: dir, Rec: ri, Off: 0}, c03Edit{Kind: "addext", Dir: dir, Rec: ri, Off: 1})
+				}
 				for _, e := range structural {
 					idx++
 					if vfMine(idx) {
@@ -247,6 +333,9 @@ func TestVF_C03(t *testing.T) {
 				for off := 0; off < rl+2; off++ {
 					// quick tier: all header bytes and the first bytes of every record, a stride elsewhere
 					if !vfThorough() && off > vfRecHdrLen+vfHSHdrLen+8 && (off+ri)%11 != 0 && !(ri == 0 && off < 160) {
+						continue
+					}
+					if light && off > vfRecHdrLen {
 						continue
 					}
 					ms := masks
@@ -266,11 +355,11 @@ func TestVF_C03(t *testing.T) {
 			}
 		}
 	}
-	rec.SetExhaustive(vfThorough(), fmt.Sprintf("%d enumerated edits (thorough: every byte x 3 masks on all %d scenarios; quick: strided sweep on a third of the scenarios)", idx, len(scs)))
+	rec.SetExhaustive(vfThorough(), fmt.Sprintf("%d enumerated edits (thorough: every byte x 3 masks on all %d scenarios; quick: strided sweep on a third of the scenarios, header and first payload byte of every record plus the hello edits on all of them)", idx, len(scs)))
 	vfRapid(t, rec, "random", vfN(1500, 40000), func(t *rapid.T) {
 		sc := rapid.SampledFrom(scs).Draw(t, "sc")
 		e := c03Edit{Dir: rapid.IntRange(0, 1).Draw(t, "dir"), Rec: rapid.IntRange(0, 9).Draw(t, "rec")}
-		e.Kind = rapid.SampledFrom(append([]string{"flip", "flip", "flip", "drop", "dup", "swap", "trunc", "inject"}, c03StackKinds...)).Draw(t, "kind")
+		e.Kind = rapid.SampledFrom(append([]string{"flip", "flip", "flip", "drop", "dup", "swap", "trunc", "inject", "addext"}, c03StackKinds...)).Draw(t, "kind")
 		switch e.Kind {
 		case "flip":
 			e.Off = rapid.IntRange(0, 700).Draw(t, "off")
@@ -279,6 +368,9 @@ func TestVF_C03(t *testing.T) {
 			e.Off = rapid.IntRange(0, 400).Draw(t, "off")
 		case "inject":
 			e.Inj = rapid.SampledFrom(c03Injections).Draw(t, "inj")
+		case "addext":
+			e.Rec = rapid.IntRange(0, 2).Draw(t, "helloRec")
+			e.Off = rapid.IntRange(0, 1).Draw(t, "prepend")
 		}
 		c := c03Case{Sc: sc, Edit: e}
 		run(c, func(sig, msg string) { rec.Fail(t, sig, c, "%s", msg) })
